@@ -37,12 +37,13 @@ Considered(c) == {e \in Effective(c) : ~(c.exclQuery /\ e.in = "query")}
 TextOf(c, e) == LET vs == {v \in Range(c.values) : <<v.in, v.name>> = Key(e)} IN
                 IF vs = {} THEN "absent" ELSE (CHOOSE v \in vs : TRUE).text
 (* kind "int": an integer schema; "strx": a string that must start with x; "reqint": a REQUIRED integer;  *)
+(* "cint": an optional integer described by content (application/json) instead of schema;                  *)
 (* "reqintd": a required integer whose schema also has a default -- a default does not make an absent       *)
 (* required parameter present                                                                              *)
 IsRequired(e) == e.kind \in {"reqint", "reqintd"}
 Passes(c, e) == LET t == TextOf(c, e) IN
                 IF t = "absent" THEN ~IsRequired(e)
-                ELSE (e.kind \in {"int", "reqint", "reqintd"} /\ t = "1") \/ (e.kind = "strx" /\ t = "x")
+                ELSE (e.kind \in {"int", "reqint", "reqintd", "cint"} /\ t = "1") \/ (e.kind = "strx" /\ t = "x")
 
 (* the body part.  What the operation declares and what the request carries are independent:        *)
 (*   - no requestBody declared: there is no body part, whatever the request carries                   *)
